@@ -131,6 +131,8 @@ static int new_packet(int sk_fd, int can_socket) {
     uint64_t proc_bytes = 0, msg_proc_bytes = 0;
     uint32_t udp_seq_num;
     uint16_t msg_length, can_payload_length, acf_msg_length;
+    uint16_t max_payload_length;
+    uint64_t pdu_length;
     uint8_t subtype;
     uint8_t pdu[MAX_PDU_SIZE], i;
     uint8_t *cf_pdu, *acf_pdu, *udp_pdu, *can_payload;
@@ -141,6 +143,12 @@ static int new_packet(int sk_fd, int can_socket) {
     res = recv(sk_fd, pdu, MAX_PDU_SIZE, 0);
     if (res < 0 || res > MAX_PDU_SIZE) {
         perror("Failed to receive data");
+        return 0;
+    }
+    pdu_length = res;
+
+    // Only the bytes that were received may be parsed
+    if (pdu_length < (use_udp ? AVTP_UDP_HEADER_LEN : 0) + AVTP_NTSCF_HEADER_LEN) {
         return 0;
     }
 
@@ -160,6 +168,9 @@ static int new_packet(int sk_fd, int can_socket) {
     }
 
     if (subtype == AVTP_SUBTYPE_TSCF){
+        if (pdu_length < proc_bytes + AVTP_TSCF_HEADER_LEN) {
+            return 0;
+        }
         proc_bytes += AVTP_TSCF_HEADER_LEN;
         msg_length = Avtp_Tscf_GetStreamDataLength((Avtp_Tscf_t*)cf_pdu);
     } else {
@@ -167,7 +178,17 @@ static int new_packet(int sk_fd, int can_socket) {
         msg_length = Avtp_Ntscf_GetNtscfDataLength((Avtp_Ntscf_t*)cf_pdu);
     }
 
+    if (msg_length > pdu_length - proc_bytes) {
+        fprintf(stderr, "Error: data length exceeds the received packet.\n");
+        return 0;
+    }
+
     while (msg_proc_bytes < msg_length) {
+
+        // A complete ACF CAN header must be left
+        if (msg_length - msg_proc_bytes < AVTP_CAN_HEADER_LEN) {
+            return 0;
+        }
 
         acf_pdu = &pdu[proc_bytes + msg_proc_bytes];
 
@@ -180,6 +201,18 @@ static int new_packet(int sk_fd, int can_socket) {
         can_payload = Avtp_Can_GetPayload((Avtp_Can_t*)acf_pdu);
         acf_msg_length = Avtp_Can_GetAcfMsgLength((Avtp_Can_t*)acf_pdu)*4;
         can_payload_length = Avtp_Can_GetCanPayloadLength((Avtp_Can_t*)acf_pdu);
+
+        // The message must lie within the received data, its payload
+        // within the message and within a CAN frame
+        max_payload_length = (can_variant == AVTP_CAN_FD) ?
+                                        CANFD_MAX_DLEN : CAN_MAX_DLEN;
+        if (acf_msg_length < AVTP_CAN_HEADER_LEN ||
+            acf_msg_length > msg_length - msg_proc_bytes ||
+            can_payload_length > acf_msg_length - AVTP_CAN_HEADER_LEN ||
+            can_payload_length > max_payload_length) {
+            fprintf(stderr, "Error: malformed ACF CAN message.\n");
+            return 0;
+        }
         msg_proc_bytes += acf_msg_length;
 
         // Handle EFF Flag
